@@ -33,6 +33,20 @@ def snapshot(v, seen=None):
     return (type(v).__name__, v if not isinstance(v, (bytearray,)) else bytes(v))
 
 
+def boolify(rng, env):
+    """spell some thresholds / versions of 1 as the bool True (accepted everywhere an int >= 1 is): a validator that 'normalises' what it
+    vetted would rewrite them in place"""
+    sg = env.get("signed") if isinstance(env, dict) else None
+    if not isinstance(sg, dict):
+        return env
+    if sg.get("version") == 1 and rng.random() < 0.5:
+        sg["version"] = True
+    for d in (sg.get("delegations") or {}).values() if isinstance(sg.get("delegations"), dict) else []:
+        if isinstance(d, dict) and d.get("threshold") == 1 and rng.random() < 0.7:
+            d["threshold"] = True
+    return env
+
+
 def build_pool(rng):
     """objects shared by all calls of a history"""
     pool = {"envs": [], "trusted": [], "roots": [], "values": []}
@@ -45,9 +59,13 @@ def build_pool(rng):
         pool["envs"].append((other, c["auth"], gpg))
     for i in range(6):
         role, u, t = deleg_case(rng, bool(i % 2))
+        if i % 3 == 0:
+            boolify(rng, t)
         pool["trusted"].append((role, u, t, bool(i % 2)))
     for i in range(6):
         t, u = root_pair(rng)
+        if i % 3 == 0:
+            boolify(rng, t)         # the trusted root only: the untrusted one's signatures cover its exact bytes
         pool["roots"].append((t, u))
     for i in range(10):
         pool["values"].append(gen.rand_json(rng, 3, [15]))
